@@ -857,6 +857,67 @@ func c16(x *mon.Ctx) {
 		x.Require("concurrent-fetch-policies", pRounds*3, pRounds*3, pRounds*8)
 	}
 
+	// ---------------- (c''') the PRODUCTION getter (Options.Getter nil, or a trust getter of the caller's own) under concurrent
+	//                  verifications of one quote, each with its own options, against a loopback PCS over real TLS: whatever the
+	//                  getter touches in the process (the default HTTP client, its transport) is shared by all of them
+	{
+		rr := x.Rand("c16-production-getter")
+		wq := world.Honest(rr, world.HonestOpts{Shape: world.QuoteShape{AuthLen: 32}})
+		c := wq.Case(world.LCrl, "c16-production-getter", "")
+		pcs := mon.StartHTTPPCS(false)
+		pcs.Serve(c.Resp)
+		msg := mon.MessageFor("parsed", c.Quote)
+		hRounds, bad, n := x.Pick(3, 12), 0, 0
+		for round := 0; round < hRounds; round++ {
+			var wg sync.WaitGroup
+			start := make(chan struct{})
+			for g := 0; g < 12; g++ {
+				wg.Add(1)
+				go func(g int) {
+					defer wg.Done()
+					<-start
+					for it := 0; it < x.Pick(6, 20); it++ {
+						o, _ := mon.Options(c)
+						switch g % 3 {
+						case 0:
+							o.Getter = nil
+						case 1:
+							o.Getter = &trust.SimpleHTTPSGetter{}
+						default:
+							o.Getter = trust.DefaultHTTPSGetter()
+						}
+						var e error
+						pv, _, hung := mon.GuardTimed(func() { e = verify.TdxQuote(msg, o) }, 90*time.Second)
+						mu.Lock()
+						n++
+						if hung {
+							x.Inconclusive(fmt.Sprintf("production-getter phase: a verification did not return within 90 s (round %d, goroutine %d)", round, g))
+							mu.Unlock()
+							return
+						}
+						if pv != "" || e != nil {
+							bad++
+							if bad <= 3 {
+								x.Violation("concurrent-production-getter", fmt.Sprintf("round%d/g%d", round, g), fmt.Sprintf("an honest quote verified with collateral fetched by the production getter from a loopback PCS, 12 goroutines at once: err=%v panic=%q (alone it is accepted)", e, pv), "verify", c)
+							}
+						}
+						mu.Unlock()
+					}
+				}(g)
+			}
+			close(start)
+			wg.Wait()
+			x.Note("concurrent-production-getter", fmt.Sprint(round), bad == 0, false, true)
+		}
+		pcs.Close()
+		x.Extra["concurrent_calls_production_getter"] = n
+		x.Extra["production_getter_requests_served"] = pcs.Requests()
+		if pcs.Requests() < n { // every verification needs four documents
+			x.Broken(fmt.Sprintf("production-getter phase: %d verifications but only %d requests reached the loopback PCS", n, pcs.Requests()))
+		}
+		x.Require("concurrent-production-getter", hRounds, 0, hRounds)
+	}
+
 	// ---------------- first use: fresh processes whose very first verifications are concurrent
 	if self, err := os.Executable(); err == nil {
 		for k := 0; k < x.Pick(4, 16); k++ {
